@@ -179,6 +179,56 @@ class Fn:
                 st.append(j)
         return seen
 
+    def reach_threaded(self, starts, result_locals, removed_nodes=(), removed_edges=()):
+        """Reachability that follows one Result through its `?`: along a path on which one of `result_locals` (and plain
+        copies of it) was last assigned `Err{..}` / `Ok{..}`, the switch on `Try::branch(<that local>)` is left only through
+        the matching outcome (Break / Continue).  A spliced helper returns its Result through a join block; without this the
+        Err paths of the helper appear to continue into the code after the `?`."""
+        alias = set(result_locals)
+        for _ in range(3):
+            for b in self.live:
+                for st in self.blocks[b]["s"]:
+                    a = st["rv"].get("a") if st["rv"]["k"] == "use" else None
+                    pl = (a.get("move") or a.get("copy")) if isinstance(a, dict) else None
+                    if pl is not None and not pl["p"] and pl["l"] in alias and not st["lhs"]["p"]:
+                        alias.add(st["lhs"]["l"])
+        branch_dests = set()
+        for c in self.calls():
+            if (c.declared or c.callee or "").endswith("::branch") and c.args and c.dest is not None:
+                pl = c.args[0].get("move") or c.args[0].get("copy")
+                if pl is not None and pl["l"] in alias:
+                    branch_dests.add(c.dest["l"])
+        sw = {}
+        for S in self.live:
+            if self.blocks[S]["t"]["k"] != "switch":
+                continue
+            si = self.switch_info(S)
+            if si["kind"] == "discr" and si["of"]["l"] in branch_dests and not si["of"]["p"]:
+                sw[S] = si
+        rn, re_ = set(removed_nodes), set(removed_edges)
+        seen = set()
+        st_ = [(b, None) for b in starts]
+        while st_:
+            b, tag = st_.pop()
+            if (b, tag) in seen or b in rn:
+                continue
+            seen.add((b, tag))
+            for s in self.blocks[b]["s"]:
+                if not s["lhs"]["p"] and s["lhs"]["l"] in alias and s["rv"]["k"] == "agg" and s["rv"].get("variant") in ("Ok", "Err"):
+                    tag = s["rv"]["variant"]
+            t = self.blocks[b]["t"]
+            if t["k"] == "call" and t.get("dest") is not None and not t["dest"]["p"] and t["dest"]["l"] in alias:
+                tag = None      # result of a real call: either outcome
+            for lab, j in self.succ[b]:
+                if (b, lab) in re_:
+                    continue
+                if b in sw and tag is not None:
+                    want = "Break" if tag == "Err" else "Continue"
+                    if sw[b]["vars"].get(lab) != want:
+                        continue
+                st_.append((j, None if b in sw else tag))
+        return {b for b, _t in seen}
+
     def reach_from_succ(self, b, removed_nodes=(), removed_edges=()):
         """Blocks reachable from b by taking at least one edge."""
         return self.reach([j for lab, j in self.succ[b] if (b, lab) not in set(removed_edges)], removed_nodes, removed_edges)
